@@ -426,6 +426,10 @@ pub fn record_payload(ty: u8, payload: &[u8], off: usize, dtls: bool) -> Payload
                         if v.is_empty() {
                             return Payload::Reject(w);
                         }
+                        if dtls {
+                            // C10 does not say what a DTLS record with a malformed later message yields
+                            return Payload::Unspec("malformed later message in a DTLS record");
+                        }
                         break;
                     }
                     BU(w) => return Payload::Unspec(w),
